@@ -369,6 +369,17 @@ class RNP:
         return RArr(_build(shape, lambda ix: CRat(0)), getattr(dtype, "name", dtype) or "float64")
 
     @staticmethod
+    def identity(n, dtype=None):
+        return RArr([[CRat(1 if i == j else 0) for j in range(int(n))] for i in range(int(n))], getattr(dtype, "name", dtype) or "float64")
+
+    eye = identity
+
+    @staticmethod
+    def ones(shape, dtype=None):
+        shape = (shape,) if isinstance(shape, int) else tuple(int(x) for x in shape)
+        return RArr(_build(shape, lambda ix: CRat(1)), getattr(dtype, "name", dtype) or "float64")
+
+    @staticmethod
     def arange(a, b=None):
         a = int(a.data) if isinstance(a, RArr) else int(a)
         if b is None:
@@ -450,6 +461,10 @@ class RNP:
             if a.shape[0] != b.shape[0]:
                 raise ValueError("matmul: batch dimensions differ")
             return RArr([RNP.matmul(RArr(x), RArr(y)).data for x, y in zip(a.data, b.data)], a.dtype)
+        if a.ndim == 2 and b.ndim == 1:
+            if a.shape[1] != b.shape[0]:
+                raise ValueError("matmul: inner dimensions differ")
+            return RArr([_dot(row, b.data) for row in a.data], a.dtype)
         if a.ndim == 2 and b.ndim == 2:
             n = a.shape[1]
             if n != b.shape[0]:
